@@ -60,7 +60,9 @@ T make_value(H<T>& h, std::string const& name, int nkinds, bool positive, int* k
     case V_NINF: return h.special(NINF);
     default: break;
     }
-    T v = positive ? h.input(name, 0.0, 1e30, true, false) : h.input(name, -1e30, 1e30);
+    // magnitudes whose squares and cubes stay finite in the numeric flavour (overflow of finite data is outside the premises)
+    double const big = (SYM_DIGITS == 24) ? 1e9 : 1e30;
+    T v = positive ? h.input(name, 0.0, big, true, false) : h.input(name, -big, big);
     if (!positive && nkinds >= 2) h.assume(!h.eq(v, T(0.0)));
     return v;
 }
@@ -93,10 +95,26 @@ struct run_log
 template <typename T>
 struct stub_tables
 {
-    struct fentry { T f; int kind; bool ask; T dx, dv; int dvk; };
+    struct fentry { T f; int kind; bool ask; T dx, dv; int dvk; bool use_proj; };
     std::map<key_t, fentry> f;
     struct dentry { std::vector<T> p; T jac; int jk; };
     std::map<key_t, dentry> d;
+    // a sampled point is identified by the stream positions of the canonical numbers it was made from (the same in the
+    // serial run, a resumed run and on every MPI rank), not by its coordinates: concrete replays often give several
+    // symbolic points the same coordinate values
+    std::size_t cursor = 0;       // index into canon_table<T>::draws() where the current call's draws begin
+    key_t last_key;
+    key_t call_key(std::uint64_t salt)
+    {
+        auto const& draws = canon_table<T>::draws();
+        if (cursor > draws.size()) cursor = 0;     // the table was cleared (new path)
+        key_t k;
+        k.push_back(salt);
+        for (std::size_t i = cursor; i < draws.size(); ++i) k.push_back(draws[i]);
+        cursor = draws.size();
+        last_key = k;
+        return k;
+    }
 };
 
 // integrand stub
@@ -110,6 +128,7 @@ struct stub_integrand
     bool may_ask_weight = false;
     int dist_kinds = 0;       // 0: no projector use; 1 finite value; 5 with non-finite values
     bool dist_x_symbolic = true;
+    bool projector_optional = false;  // fork: the integrand may skip projector.add at a point
     mutable bool sanitize = false;    // return zero wherever the stored value is not finite ("the same points returned zero")
 
     T evaluate(hep::mc_point<T> const& p, hep::projector<T>* proj) const
@@ -123,7 +142,7 @@ struct stub_integrand
             r.channel = mp->channel();
             salt = 100 + r.channel;
         }
-        key_t key = key_of(r.coords, salt);
+        key_t key = tab->call_key(salt);
         auto it = tab->f.find(key);
         if (it == tab->f.end())
         {
@@ -131,8 +150,11 @@ struct stub_integrand
             e.f = make_value<T>(*h, "f", f_kinds, false, &e.kind);
             e.ask = may_ask_weight ? (h->choose("integrand_asks_weight", 2) == 1) : false;
             e.dvk = V_FINITE;
+            e.use_proj = false;
             if (dist_kinds > 0)
             {
+                // an integrand with distributions need not fill them at every point
+                e.use_proj = projector_optional ? (h->choose("integrand_uses_projector", 2) == 0) : true;
                 e.dx = dist_x_symbolic ? h->input("dist_x", -1.0, 2.0) : T(0.25);
                 e.dv = make_value<T>(*h, "dist_v", dist_kinds == 1 ? 1 : 5, false, &e.dvk);
             }
@@ -153,7 +175,7 @@ struct stub_integrand
             r.asked_weight_value = p.weight();
             log->ev("integrand_got_weight");
         }
-        if (proj != nullptr && dist_kinds > 0)
+        if (proj != nullptr && dist_kinds > 0 && e.use_proj)
         {
             r.has_dist = true;
             r.dist_x = e.dx;
@@ -178,6 +200,7 @@ struct map_record
     std::vector<std::size_t> enabled;
     void const* a_rn; void const* a_coords; void const* a_dens; void const* a_enabled;
     std::vector<T> coords_after;
+    std::vector<T> dens_seen;   // content of the density buffer: after the coordinate call / on entry of the density call
     std::vector<T> p;   // densities written (size channels)
     T jac;
     int jk;
@@ -200,6 +223,7 @@ struct stub_channel_map
     {
         map_record<T> r;
         r.channel = channel;
+        if (action == hep::multi_channel_map::calculate_densities) r.dens_seen = densities;
         r.rn = random_numbers;
         r.enabled = enabled_channels;
         r.a_rn = &random_numbers; r.a_coords = &coordinates; r.a_dens = &densities; r.a_enabled = &enabled_channels;
@@ -208,11 +232,16 @@ struct stub_channel_map
             for (std::size_t j = 0; j != coordinates.size(); ++j)
                 coordinates[j] = random_numbers.at(j % random_numbers.size());
             r.coords_after = coordinates;
+            // a map may already compute the densities while it generates the point (and only return the jacobian later):
+            // leave recognisable values in the buffer
+            for (auto const i : enabled_channels) densities.at(i) = T(static_cast<double>(7 + 3 * i));
+            r.dens_seen = densities;
             log->ev("map_coordinates");
             coord_calls->push_back(r);
             return T(1.0);
         }
-        key_t key = key_of(random_numbers, 1000 + channel);
+        key_t key = tab->last_key;
+        key.push_back(1000 + channel);
         auto it = tab->d.find(key);
         if (it == tab->d.end())
         {
